@@ -151,6 +151,7 @@ func runC01(c *core.Ctx, r *core.Reporter) {
 	c02deliver(c, r, "C01.quote")
 	c01testvalue(c, r)
 	c01kwself(c, r)
+	c01emptynil(c, r)
 	const once = "C01.once"
 	const branch = "C01.branch"
 	r.Rule(once, "in the Call method of each core form (and the helpers in its package that it calls statically), no two distinct evaluation sites with the same list operand and the same index (constants folded; or the same SSA index value inside one loop iteration) lie on one path", 25)
@@ -494,6 +495,57 @@ func c01skip(c *core.Ctx, r *core.Reporter) {
 				}
 			}
 		}
+		// positions evaluated by a helper that evaluates a list from a start index on (cl.EvalTagBody)
+		for _, blk := range fn.Blocks {
+			for _, in := range blk.Instrs {
+				call, ok := in.(*ssa.Call)
+				if !ok {
+					continue
+				}
+				g := call.Call.StaticCallee()
+				li, si, ok := listEvaluator(g)
+				if !ok || li >= len(call.Call.Args) {
+					continue
+				}
+				base, off := call.Call.Args[li], 0
+				for i := 0; i < 4; i++ {
+					if sl, ok := base.(*ssa.Slice); ok && sl.High == nil {
+						if sl.Low != nil {
+							k, ok := foldInt(sl.Low, 0)
+							if !ok {
+								break
+							}
+							off += k
+						}
+						base = sl.X
+						continue
+					}
+					break
+				}
+				if base != ssa.Value(argsP) {
+					continue
+				}
+				n++
+				if !b.SkipLit && b.HasSkip {
+					continue
+				}
+				start, isC := 0, si < 0
+				if si >= 0 && si < len(call.Call.Args) {
+					start, isC = foldInt(call.Call.Args[si], 0)
+				}
+				okSkip := b.HasSkip && len(b.SkipEval) > 0 && b.SkipEval[len(b.SkipEval)-1]
+				if okSkip && isC {
+					for i := start + off; i < len(b.SkipEval); i++ {
+						if !b.SkipEval[i] {
+							okSkip = false
+						}
+					}
+				}
+				if !okSkip {
+					bad = append(bad, fmt.Sprintf("%s at %s evaluates the positions from %d on, which SkipEval %v leaves to Function.Eval", g.Name(), c.Pos(call.Pos()), start+off, b.SkipEval))
+				}
+			}
+		}
 		if n == 0 {
 			continue
 		}
@@ -503,6 +555,59 @@ func c01skip(c *core.Ctx, r *core.Reporter) {
 		}
 		r.Decide(len(bad) == 0, rule, b.Key(), c.Pos(b.Pos), fmt.Sprintf("%d self-evaluated positions; %s", n, orOKs(strings.Join(bad, "; "), "all marked in SkipEval")))
 	}
+}
+
+// listEvaluator: g (not a Call method) evaluates the elements of its list parameter li in a loop whose index
+// starts at its int parameter si (-1: at a constant).
+var listEvalMemo = map[*ssa.Function][3]int{}
+
+func listEvaluator(g *ssa.Function) (li, si int, ok bool) {
+	if g == nil || len(g.Blocks) == 0 || g.Pkg == nil || !core.InModule(g.Pkg.Pkg) || g.Signature.Recv() != nil {
+		return 0, 0, false
+	}
+	if m, seen := listEvalMemo[g]; seen {
+		return m[0], m[1], m[2] == 1
+	}
+	res := [3]int{0, -1, 0}
+	loops := core.Loops(g)
+	for _, es := range evalSitesOf(g) {
+		if es.list == nil || es.isC {
+			continue
+		}
+		for i, p := range g.Params {
+			if es.list != ssa.Value(p) {
+				continue
+			}
+			l := core.InnermostLoop(loops, es.call.Block())
+			for ; l != nil; l = l.Parent {
+				if dependsOnLoopVar(es.idx, l, 0) {
+					break
+				}
+			}
+			if l == nil {
+				continue
+			}
+			res[0], res[2] = i, 1
+			for _, in := range l.Header.Instrs {
+				phi, isPhi := in.(*ssa.Phi)
+				if !isPhi {
+					continue
+				}
+				for k, e := range phi.Edges {
+					if l.Blocks[l.Header.Preds[k]] {
+						continue
+					}
+					for j, q := range g.Params {
+						if e == ssa.Value(q) {
+							res[1] = j
+						}
+					}
+				}
+			}
+		}
+	}
+	listEvalMemo[g] = res
+	return res[0], res[1], res[2] == 1
 }
 
 // c01fresh shares the implementation of C08.nostate for the core forms.
